@@ -115,9 +115,6 @@ End Emulate.
 
 (* as found: the same check in the handler, yet a non-jumbo VYc right after a jumbo event is
    emulated as ok *)
-Definition jumbo_checking_handler (e : emu_ev_t) : bool :=
-  if is_type_create e then e_is_jumbo e else true.
-
 Lemma jumbo_checking_handler_checks : handler_checks_jumbo jumbo_checking_handler.
 Proof. intros e Ht Hj. unfold jumbo_checking_handler. rewrite Ht. exact Hj. Qed.
 
